@@ -701,7 +701,6 @@ Section Logical.
       logical d m (LD i a) = Some t -> pden (LD i a) = Some (tev t).
     Proof.
       intros IH Hdf H. cbn [logical] in H. destruct (negb _ && _); [discriminate|].
-      destruct (sym_scalar a); [discriminate|].
       destruct (logical d m a) as [[s|?|?]|] eqn:Ea; try discriminate.
       specialize (IH _ eq_refl). pose proof (Hdf _ Ea) as Hs. simpl in Hs.
       destruct (lgrad d (Sc s)) as [[?|g|?]|] eqn:Eg; try discriminate.
